@@ -96,7 +96,7 @@ def decode(
         header, payload = _decode_jws(_value, key, algorithms, registry)
 
     try:
-        claims: Claims = json.loads(payload, cls=decoder_cls)
+        claims: Claims = json.loads(payload, cls=decoder_cls, parse_constant=_not_json)
     except (TypeError, ValueError, RecursionError):
         raise InvalidPayloadError()
 
@@ -106,6 +106,11 @@ def decode(
         raise InvalidPayloadError()
 
     return Token(header, claims)
+
+
+def _not_json(token: str) -> None:
+    # NaN, Infinity and -Infinity are extensions of Python's decoder, not JSON
+    raise ValueError(f"{token} is not JSON")
 
 
 def _decode_jwe(
